@@ -497,6 +497,6 @@ def replay(case: dict) -> list:
     for i in range(len(hist) + 1):
         st = model.build(hist[:i])
         model.check(st, hist[:i], acc)
-        if acc.fail_counts:
-            break
+        if any(k not in BENIGN for k in acc.fail_counts):
+            break          # (the recorded '-0' finding at an earlier prefix must not hide the failure being replayed)
     return acc.all_failures()
